@@ -125,10 +125,10 @@ def run_property(pid, tier, replay, meta, mode, witnesses, cfgs_quick=None, cfgs
         i0 = max(s for s in starts if s <= ln - 1)
         out = []
         for r in recs[i0:ln]:
-            if "m" in r:
+            if "mx" in r:
                 continue   # exchanges generated by a mesh: the mesh line regenerates them on replay
             out.append(json.dumps({k: v for k, v in r.items() if k not in ("st", "res", "now", "skew")}))
-        if "m" in recs[ln - 1]:
+        if "mx" in recs[ln - 1]:
             out.append(json.dumps({"op": "mesh"}))
         return out
 
@@ -189,8 +189,8 @@ def repl_stage(pid, tier, wd, mode="lifecycle"):
             continue
         ln, sig = t[2], t[3]
         i0 = max(s for s in starts if s <= ln - 1)
-        rl = [json.dumps({k: v for k, v in r.items() if k not in ("st", "res", "now", "skew")}) for r in recs[i0:ln] if "m" not in r]
-        if "m" in recs[ln - 1]:
+        rl = [json.dumps({k: v for k, v in r.items() if k not in ("st", "res", "now", "skew")}) for r in recs[i0:ln] if "mx" not in r]
+        if "mx" in recs[ln - 1]:
             rl.append(json.dumps({"op": "mesh"}))
         out.append((sig, f"{sig} at line {ln} (op {recs[ln-1]['op']}) of a replicated history", rl))
     return out, len(starts), len(recs)
